@@ -92,16 +92,28 @@ impl Members {
         // update the member, then set the return to "Update".
         // Because a newly inserted member would always have the same
         // timestamp this code doesn't run if we just inserted.
+        let mut previous_addr = None;
         if actor.ts().to_duration() > member.ts.to_duration() {
+            if member.addr != actor.addr() {
+                // the ring was computed from the RTTs of the previous address
+                previous_addr = Some(member.addr);
+                member.ring = None;
+            }
             member.addr = actor.addr();
             member.ts = actor.ts();
             member.cluster_id = actor.cluster_id();
             ret = MemberAddedResult::Updated;
         }
 
-        // If we just inserted, add the actor to the by_addr set and
-        // recalculate the RTT rings.
-        if ret == MemberAddedResult::NewMember {
+        // If we just inserted or updated, (re-)point the by_addr index at
+        // the member's current address (RTTs are keyed by address) and
+        // recalculate the RTT rings from what was observed for it.
+        if ret != MemberAddedResult::Ignored {
+            if let Some(previous_addr) = previous_addr
+                && self.by_addr.get(&previous_addr) == Some(&actor_id)
+            {
+                self.by_addr.remove(&previous_addr);
+            }
             self.by_addr.insert(actor.addr(), actor.id());
             self.recalculate_rings(actor.addr());
         }
